@@ -110,7 +110,10 @@ Qed.
 
 Theorem aph_weight_sign_independent mf q1 q2 s1 s2 s1' s2' :
   aph_weight mf (q1, s1) (q2, s2) = aph_weight mf (q1, s1') (q2, s2').
-Proof. reflexivity. Qed.
+Proof.
+  unfold aph_weight, aph_weight_map, aph_weight_ego, heading_bev_via, heading_bev_ego, yaw_of. cbn [fst].
+  reflexivity.
+Qed.
 
 Lemma in_map_valid e o : valid_yaw (yaw_of o) -> valid_yaw e -> valid_yaw (yaw_of (in_map e o)).
 Proof.
